@@ -218,13 +218,107 @@ def t_classes():
     return h.twice + h.k() + Holder.K + sum(map(operator.mul, (1, 2), (3, 4)))      # 10+9+4+11 = 34
 
 
+PAIR_A, PAIR_B = 30, 4
+FIRST, SECOND = divmod(17, 5)
+
+
+def t_del_and_unpack():
+    d = {'a': 1, 'b': 2, 'c': 3}
+    del d['b']
+    e = {**d, 'z': 26}
+    rows = [1, 2, 3, 4]
+    del rows[0]
+    return len(d) + len(e) + e['c'] + e['z'] + rows[0] + PAIR_A + PAIR_B + FIRST * 100 + SECOND     # 2+3+3+26+2+30+4+300+2 = 372
+
+
 def t_getters():
     first = operator.itemgetter(0)
     wid = operator.attrgetter('width')
     return first((8, 9)) + wid(Box(1, 4))              # 8 + 3 = 11
 '''
 
-EXPECT = {'t_namedtuple': 27, 't_subclass': 34, 't_partial': 42, 't_reduce': 63, 't_generators': 44, 't_sets_dicts': 74, 't_classes': 34, 't_getters': 11, 't_property_objects': 67, 't_itertools': 53, 't_lazy_pipeline': 45, 't_generator_fed_by_iterator': 33, 't_list_methods': 222}
+EXPECT = {'t_namedtuple': 27, 't_subclass': 34, 't_partial': 42, 't_reduce': 63, 't_generators': 44, 't_sets_dicts': 74, 't_classes': 34, 't_getters': 11, 't_property_objects': 67, 't_itertools': 53, 't_lazy_pipeline': 45, 't_generator_fed_by_iterator': 33, 't_list_methods': 222, 't_del_and_unpack': 372}
+
+
+FILE_SRC = '''
+import struct
+import numpy as np
+
+
+def w_ok(name, z):
+    counts = np.flipud(np.around(z * 4)).astype('>i2')
+    hdr = struct.pack('>HH', z.shape[0], z.shape[1])
+    with open(name, 'wb') as f:
+        f.write(hdr)
+        f.write(counts.tobytes())
+
+
+def w_bad(name, z):
+    counts = np.flipud(np.around(z * 4)).astype('<i2')
+    hdr = struct.pack('>HH', z.shape[1], z.shape[0])
+    with open(name, 'wb') as f:
+        f.write(hdr)
+        f.write(counts.tobytes())
+
+
+def r_(name):
+    with open(name, 'rb') as f:
+        raw = f.read()
+    rows, cols = struct.unpack('>HH', raw[:4])
+    a = np.frombuffer(raw, dtype='>i2', offset=4, count=rows * cols).astype(float)
+    return np.flipud(a.reshape((rows, cols))) / 4
+
+
+def t_w(name, z, scale):
+    k = z.shape[1]
+    with open(name, 'w') as f:
+        f.write('MAP %d %d SCL %r\\n' % (z.shape[0], k, scale))
+        for row in np.around(z * scale).astype(int):
+            f.write(' '.join('%d' % v for v in row) + '\\n')
+
+
+def t_r(name):
+    txt = open(name).read()
+    head, _, body = txt.partition('\\n')
+    tok = head.split()
+    n, m, s = int(tok[1]), int(tok[2]), float(tok[tok.index('SCL') + 1])
+    return np.array(body.split(), dtype=float).reshape((n, m)) / s
+'''
+
+
+def file_fixture(db):
+    """a toy binary pair (correct / with two slips) and a toy text pair: the composition must pass the first, report the second, pass the third"""
+    from ..core.interp import Const
+    from ..core.report import Run
+    from ..domains.filedom import file_interp, FArr, BytesV
+    from ..rules import c14compose as C
+    name = 'prysm._verif_file_fixture'
+    mod = Module(name, '<file fixture>', '<file fixture>', FILE_SRC.replace('\\\\n', '\\n'))
+    db.modules[name] = mod
+    try:
+        out = {}
+        for tag, w, r, extra in (('ok', 'w_ok', 'r_', {}), ('bad', 'w_bad', 'r_', {}), ('text', 't_w', 't_r', {'scale': None})):
+            it, dom = file_interp(db)
+            dom.count_range = (-32767, 32767)
+            dom.file_keys = {'F'}
+            run = Run('FIXTURE', 'quick', '')
+            kw = {'name': Const('F'), 'z': None}
+            res = it.run(mod.functions[w], kwargs=lambda: dict({'name': Const('F'), 'z': C._input(dom, (2, 3), ())}, **({'scale': dom.sym('scale')} if extra else {})))
+            good = 0
+            for wp in [p for p in res if p.outcome == 'return']:
+                c = C._file_of(wp)
+                dom.files = {'F': BytesV(c.items) if isinstance(c, BytesV) else c}
+                for rp in it.run(mod.functions[r], kwargs=lambda: {'name': Const('F')}):
+                    if rp.outcome == 'return' and isinstance(rp.value, FArr) and C.compare_maps(run, dom, 'FIX', r, tag, rp.value, (2, 3), (), ''):
+                        good += 1
+                    elif rp.outcome != 'return':
+                        run.finding('FIX', r, tag, 'raises', '')
+            out[tag] = (good, len(run.findings))
+        if not (out['ok'][0] >= 1 and out['ok'][1] == 0 and out['text'][0] >= 1 and out['text'][1] == 0 and out['bad'][0] == 0 and out['bad'][1] >= 1):
+            raise AnalysisError('FILE fixture failed: %r (expected ok and text to compose, bad to be reported)' % (out,))
+    finally:
+        del db.modules[name]
+    return 3
 
 
 def main(db):
